@@ -11,11 +11,11 @@ for lx in a b; do
   git reset -q --hard HEAD; git clean -q -fd -e target
   git apply $D/demo.diff || { echo "$P-3$lx: demo.diff does not apply"; continue; }
   MOD=$(grep -ho "mod [a-z_0-9]*seeded[a-z_0-9]*" $D/demo.diff | head -1 | awk '{print $2}'); [ -z "$MOD" ] && MOD=seeded
-  R1=$(cargo test --offline -p gneiss-mqtt --features testing,tokio,threaded --lib $MOD 2>&1 | grep "^test result" | head -1)
+  R1=$(cargo test --offline -p ${PKG:-gneiss-mqtt} --features ${FEATURES:-testing,tokio,threaded} --lib $MOD 2>&1 | grep "^test result" | head -1)
   echo "##### $P-3$lx ($MOD) demo WITHOUT change: $R1"
   git apply $PATCH || { echo "$P-3$lx: patch does not apply"; continue; }
   cargo build --workspace --offline 2>&1 | tail -1
-  R2=$(cargo test --offline -p gneiss-mqtt --features testing,tokio,threaded --lib $MOD 2>&1 | grep "^test result" | head -1)
+  R2=$(cargo test --offline -p ${PKG:-gneiss-mqtt} --features ${FEATURES:-testing,tokio,threaded} --lib $MOD 2>&1 | grep "^test result" | head -1)
   echo "##### $P-3$lx demo WITH change:    $R2"
   git apply -R $D/demo.diff
   /verif/tools/baseline_check.sh $W | head -4
